@@ -1,10 +1,327 @@
-//! C03 — (stub; filled in during the build phase)
+//! C03 — type references bind to the entity the scoping rules designate.
 
 use super::PropMeta;
 use crate::engine::*;
+use crate::model::ast::*;
+use crate::model::print::*;
+use crate::model::resolve::*;
+use crate::model::run::*;
+use crate::model::tree::*;
+use crate::util::*;
+use serde_json::{json, Value};
+use slicec::grammar::{CustomType, Enum, Enumerator, Field, Interface, Operation, Struct, TypeAlias};
 
-pub fn meta(_m: &mut PropMeta) {}
+pub fn meta(m: &mut PropMeta) {
+    m.rule = "three nested module levels A, A::B, A::B::C (plus sibling A::D and unrelated Z), each in its own file; at each level an entity named X of kind {none, struct, enum, custom, interface, alias->primitive, alias->the X one level out} (7^3); a referencing element in the module at level 1..3 in position {field, parameter, alias target, sequence element, dictionary value, interface base, enum underlying}; every spelling of the reference {X, C::X, B::C::X, A::B::C::X, ::A::B::C::X, ::X, B::X, D::X, ::A::D::X, S::f (member path), B (module), Nope}; level files listed in all 6 orders: complete product. Plus alias chains of length 1..4 with a distinct attribute on each link and on the use site, ending in each type form, links spread over two modules, used in 3 positions. Oracle: reference resolver written from the statement (innermost module outwards, then global; '::' global only; first name hit decides; wrong kind = error; aliases replaced by final target, attributes accumulated use-site first then link by link). Reference says bound: compilation error-free and the whole observed AST (with the scoped identifier and kind of every bound definition and the accumulated attributes) equals the model; reference says error: an Error with code E033/E017/E019 is reported. Every definition, field, enumerator and operation of an accepted program is retrieved by its fully scoped name through Ast::find_element. A case = one (kinds, level, position) with all spellings x orders inside; non-trivial = some spelling binds to an entity that is not the first candidate looked at, or must be rejected.";
+    m.explanation = "complete product of scope arrangements x reference spellings x positions x file orders against a reference resolver";
+    m.quick_bound = "7^3 kind assignments x 3 levels x 7 positions x 12 spellings x 6 file orders (518,616 compilations); alias chains <= 4";
+    m.thorough_bound = "same (the product is complete)";
+    m.quick_cap_s = 90.0;
+}
+
+const LEVELS: [&str; 3] = ["A", "A::B", "A::B::C"];
+const SPELLINGS: [&str; 12] = ["X", "C::X", "B::C::X", "A::B::C::X", "::A::B::C::X", "::X", "B::X", "D::X", "::A::D::X", "S::f", "B", "Nope"];
+const N_KINDS: u64 = 7;
+const N_POS: u64 = 7;
+const ORDERS: [[usize; 3]; 6] = [[0, 1, 2], [0, 2, 1], [1, 0, 2], [1, 2, 0], [2, 0, 1], [2, 1, 0]];
+
+fn x_entity(kind: u64, level: usize) -> Option<MDef> {
+    Some(match kind {
+        0 => return None,
+        1 => st("X", vec![]),
+        2 => en("X", Some(MType::prim("uint8")), vec![enumerator("E0")]),
+        3 => custom("X"),
+        4 => iface("X", vec![], vec![]),
+        5 => alias("X", MType::prim("uint8")),
+        6 => {
+            if level == 0 {
+                alias("X", MType::prim("uint16"))
+            } else {
+                alias("X", MType::named(&format!("::{}::X", LEVELS[level - 1])))
+            }
+        }
+        _ => unreachable!(),
+    })
+}
+
+fn user(pos: u64, spelling: &str) -> MDef {
+    let t = MType::named(spelling);
+    // members named like the referenced type must not capture the reference: the search runs over MODULE scopes
+    match pos {
+        0 => st("U", vec![MField::new("X", MType::prim("int32")), MField::new("f", t)]),
+        1 => iface("U", vec![], vec![op("o", vec![MParam::new("X", MType::prim("int32")), MParam::new("p", t)], MRet::None), op("X", vec![], MRet::None)]),
+        2 => alias("U", t),
+        3 => st("U", vec![MField::new("f", MType::seq(t)), MField::new("X", MType::prim("bool"))]),
+        4 => st("U", vec![MField::new("X", MType::prim("int32")), MField::new("f", MType::dict(MType::prim("int32"), t))]),
+        5 => iface("U", vec![t], vec![]),
+        6 => en("U", Some(t), vec![enumerator("E0")]),
+        _ => unreachable!(),
+    }
+}
+
+fn build(kinds: [u64; 3], r: usize, pos: u64, spelling: &str, order: usize) -> Program {
+    let mut level_files = vec![];
+    for l in 0..3 {
+        let mut f = MFile::module(LEVELS[l]);
+        if l == 0 {
+            f.defs.push(st("S", vec![MField::new("f", MType::prim("int32"))]));
+        }
+        if let Some(x) = x_entity(kinds[l], l) {
+            f.defs.push(x);
+        }
+        if l == r {
+            f.defs.push(user(pos, spelling));
+        }
+        level_files.push(f);
+    }
+    let mut program: Program = ORDERS[order].iter().map(|i| level_files[*i].clone()).collect();
+    let mut d = MFile::module("A::D");
+    d.defs.push(st("X", vec![]));
+    program.push(d);
+    let mut z = MFile::module("Z");
+    z.defs.push(st("ZZ", vec![]));
+    program.push(z);
+    program
+}
+
+/// All resolution errors the reference expects in a program.
+pub fn expected_errors(program: &Program) -> Vec<RErr> {
+    let table = Table::build(program);
+    let r = Resolver { program, table: &table };
+    let mut errs = vec![];
+    for f in program {
+        let scope = f.module_name();
+        for d in &f.defs {
+            match d {
+                MDef::Struct(s) => {
+                    for fl in &s.fields {
+                        r.errors(&fl.ty, scope, Position::Type, &mut errs);
+                    }
+                }
+                MDef::Interface(i) => {
+                    for b in &i.bases {
+                        r.errors(b, scope, Position::Base, &mut errs);
+                    }
+                    for o in &i.ops {
+                        for p in &o.params {
+                            r.errors(&p.ty, scope, Position::Type, &mut errs);
+                        }
+                        match &o.ret {
+                            MRet::None => {}
+                            MRet::Single { ty, .. } => r.errors(ty, scope, Position::Type, &mut errs),
+                            MRet::Tuple(ps) => {
+                                for p in ps {
+                                    r.errors(&p.ty, scope, Position::Type, &mut errs);
+                                }
+                            }
+                        }
+                    }
+                }
+                MDef::Enum(e) => {
+                    if let Some(u) = &e.underlying {
+                        r.errors(u, scope, Position::Underlying, &mut errs);
+                    }
+                    for en in &e.enumerators {
+                        for fl in en.fields.iter().flatten() {
+                            r.errors(&fl.ty, scope, Position::Type, &mut errs);
+                        }
+                    }
+                }
+                MDef::Custom(_) => {}
+                MDef::Alias(a) => r.errors(&a.ty, scope, Position::Type, &mut errs),
+            }
+        }
+    }
+    errs
+}
+
+/// Check one program against the reference resolver; returns (class, nontrivial).
+pub fn check_program(program: &Program, layout: &Layout, fam: &str, out: &mut CaseOut) -> String {
+    out.steps += 1;
+    let errs = expected_errors(program);
+    let rendered = render_program(program, layout);
+    let texts: Vec<String> = rendered.iter().map(|r| r.text.clone()).collect();
+    let input = || texts.join("\n--- next file ---\n");
+    let expected: Vec<Node> = rendered.iter().map(|r| r.tree.clone()).collect();
+    let table = Table::build(program);
+    match compile_rendered(rendered, None) {
+        Err((loc, msg)) => {
+            out.violate(format!("c03/{fam}/panic@{loc}"), format!("panic at {loc}: {msg}\n--- input ---\n{}", input()));
+            "panic".into()
+        }
+        Ok(c) => {
+            let real_errs = c.errors();
+            if errs.is_empty() {
+                if let Some(e) = real_errs.first() {
+                    out.violate(format!("c03/{fam}/resolvable-reference-rejected/{}", e.code), format!("every reference designates an entity of the right kind, but: {} {}\n--- input ---\n{}", e.code, e.message, input()));
+                    return format!("wrongly-rejected:{}", e.code);
+                }
+                for (i, e) in expected.iter().enumerate() {
+                    let Ok(o) = guarded(|| crate::model::observe::file(&c.files[i])) else {
+                        out.violate(format!("c03/{fam}/observer-panic"), format!("walking the AST panicked\n--- input ---\n{}", input()));
+                        continue;
+                    };
+                    if let Some(d) = diff(e, &o) {
+                        out.violate(format!("c03/{fam}/bound-differently{}", d.path), format!("file {i}: at {}: {} expected {:?}, observed {:?}\n--- input ---\n{}", d.path_named, d.what, d.expected, d.observed, input()));
+                    }
+                }
+                // every definition, field, enumerator and operation can be retrieved by its fully scoped name
+                for (name, ents) in &table.map {
+                    let e = &ents[0];
+                    let found = match e.kind {
+                        EKind::Struct => c.ast.find_element::<Struct>(name).is_ok(),
+                        EKind::Interface => c.ast.find_element::<Interface>(name).is_ok(),
+                        EKind::Enum => c.ast.find_element::<Enum>(name).is_ok(),
+                        EKind::Custom => c.ast.find_element::<CustomType>(name).is_ok(),
+                        EKind::Alias => c.ast.find_element::<TypeAlias>(name).is_ok(),
+                        EKind::Field => c.ast.find_element::<Field>(name).is_ok(),
+                        EKind::Enumerator => c.ast.find_element::<Enumerator>(name).is_ok(),
+                        EKind::Operation => c.ast.find_element::<Operation>(name).is_ok(),
+                        _ => true,
+                    };
+                    if !found {
+                        out.violate(format!("c03/{fam}/not-retrievable-by-scoped-name/{}", e.kind.name()), format!("{} {name} cannot be retrieved from the AST by its fully scoped name\n--- input ---\n{}", e.kind.name(), input()));
+                    }
+                }
+                "bound".into()
+            } else {
+                let codes: Vec<&str> = real_errs.iter().map(|e| e.code.as_str()).collect();
+                if !codes.iter().any(|c| ["E033", "E017", "E019"].contains(c)) {
+                    out.violate(
+                        format!("c03/{fam}/bad-reference-not-diagnosed/{}", match &errs[0] { RErr::DoesNotExist(_) => "designates-nothing", RErr::WrongKind { .. } => "wrong-kind", RErr::AliasCycle(_) => "alias-cycle" }),
+                        format!("the reference model expects {:?} but the compiler reported {:?}\n--- input ---\n{}", errs, codes, input()),
+                    );
+                }
+                format!("error:{}", match &errs[0] { RErr::DoesNotExist(_) => "E033", RErr::WrongKind { .. } => "E017", RErr::AliasCycle(_) => "E019" })
+            }
+        }
+    }
+}
+
+pub struct ScopeProduct;
+impl ScopeProduct {
+    fn decode(idx: u64) -> ([u64; 3], usize, u64) {
+        let k1 = idx % N_KINDS;
+        let k2 = (idx / N_KINDS) % N_KINDS;
+        let k3 = (idx / N_KINDS / N_KINDS) % N_KINDS;
+        let rest = idx / (N_KINDS * N_KINDS * N_KINDS);
+        let r = (rest % 3) as usize;
+        let pos = rest / 3;
+        ([k1, k2, k3], r, pos)
+    }
+}
+impl Family for ScopeProduct {
+    fn name(&self) -> String {
+        "scopes/7^3 kinds x 3 levels x 7 positions (x 12 spellings x 6 file orders inside each case)".into()
+    }
+    fn len(&self) -> u64 {
+        N_KINDS * N_KINDS * N_KINDS * 3 * N_POS
+    }
+    fn describe(&self, idx: u64) -> Value {
+        let (kinds, r, pos) = Self::decode(idx);
+        let p = build(kinds, r, pos, "X", 0);
+        let rendered = render_program(&p, &Layout::uniform(Sep::Space, Commas::None));
+        json!({"kinds_of_X_per_level": kinds, "referencing_level": r + 1, "position": pos, "spellings": SPELLINGS, "file_orders": 6, "example_with_spelling_X": rendered.iter().map(|r| r.text.clone()).collect::<Vec<_>>()})
+    }
+    fn run(&self, idx: u64) -> CaseOut {
+        let (kinds, r, pos) = Self::decode(idx);
+        let mut out = CaseOut::new(hash_str(&format!("c03sp{idx}")));
+        out.steps = 0;
+        out.validated = 1;
+        let layout = Layout::uniform(Sep::Space, Commas::None);
+        let mut classes = std::collections::BTreeSet::new();
+        for s in SPELLINGS {
+            // is the bound entity the first candidate looked at?
+            {
+                let p = build(kinds, r, pos, s, 0);
+                let t = Table::build(&p);
+                let (hit, tried) = t.lookup(s, LEVELS[r]);
+                if hit.is_none() || tried.len() > 1 || !expected_errors(&p).is_empty() {
+                    out.nontrivial = true;
+                }
+            }
+            for o in 0..6 {
+                let p = build(kinds, r, pos, s, o);
+                let c = check_program(&p, &layout, "scopes", &mut out);
+                classes.insert(c);
+            }
+        }
+        let mut seen = std::collections::HashSet::new();
+        out.violations.retain(|v| seen.insert(v.sig.clone()));
+        out.class = classes.into_iter().collect::<Vec<_>>().join("+");
+        out
+    }
+}
+
+/// Alias chains with attributes.
+pub struct AliasChains;
+const ENDS: usize = 6;
+impl AliasChains {
+    fn build(idx: u64) -> Program {
+        let len = (idx % 4) as usize + 1;
+        let end = ((idx / 4) % ENDS as u64) as usize;
+        let usepos = ((idx / 4 / ENDS as u64) % 3) as usize;
+        let spread = (idx / 4 / ENDS as u64 / 3) % 2 == 1;
+        let end_t = match end {
+            0 => MType::prim("int32"),
+            1 => MType::named("::A::ES"),
+            2 => MType::seq(MType::prim("int32")),
+            3 => MType::dict(MType::prim("string"), MType::named("::A::ES").opt()),
+            4 => MType::named("::A::EC"),
+            _ => MType::result(MType::named("::A::EE"), MType::prim("string")),
+        };
+        let mut fa = MFile::module("A");
+        fa.defs.push(st("ES", vec![]));
+        fa.defs.push(custom("EC"));
+        fa.defs.push(en("EE", None, vec![enumerator("E0")]));
+        let mut fb = MFile::module("A::B");
+        // link i lives in A (even i) or A::B (odd i) when spread; link i aliases link i+1 (bare name when it is visible)
+        for i in 0..len {
+            let target = if i + 1 == len { end_t.clone() } else { MType::named(&format!("::{}::L{}", if spread && (i + 1) % 2 == 1 { "A::B" } else { "A" }, i + 1)) };
+            let d = alias(&format!("L{i}"), target.attr(MAttr::with("cs::link", vec![MArg::Ident(format!("n{i}"))])));
+            if spread && i % 2 == 1 {
+                fb.defs.push(d);
+            } else {
+                fa.defs.push(d);
+            }
+        }
+        let use_t = MType::named("L0").attr(MAttr::new("cs::use"));
+        let u = match usepos {
+            0 => st("U", vec![MField::new("f", use_t.opt())]),
+            1 => iface("U", vec![], vec![op("o", vec![MParam::new("p", use_t)], MRet::None)]),
+            _ => st("U", vec![MField::new("f", MType::seq(use_t))]),
+        };
+        fb.defs.push(u);
+        vec![fb, fa]
+    }
+}
+impl Family for AliasChains {
+    fn name(&self) -> String {
+        "alias-chains/length 1..4 x 6 final targets x 3 use positions x links in one or two modules, an attribute on every link and on the use site".into()
+    }
+    fn len(&self) -> u64 {
+        4 * ENDS as u64 * 3 * 2 * 2
+    }
+    fn describe(&self, idx: u64) -> Value {
+        let p = Self::build(idx % (self.len() / 2));
+        let rendered = render_program(&p, &Layout::uniform(Sep::Space, Commas::None));
+        json!({"files": rendered.iter().map(|r| r.text.clone()).collect::<Vec<_>>(), "reversed_file_order": idx >= self.len() / 2})
+    }
+    fn run(&self, idx: u64) -> CaseOut {
+        let half = self.len() / 2;
+        let mut p = Self::build(idx % half);
+        if idx >= half {
+            p.reverse();
+        }
+        let mut out = CaseOut::new(hash_str(&format!("c03ac{idx}")));
+        out.steps = 0;
+        out.validated = 1;
+        out.nontrivial = true;
+        out.class = check_program(&p, &Layout::uniform(Sep::Space, Commas::None), "alias-chains", &mut out);
+        out
+    }
+}
 
 pub fn families(_tier: &str) -> Vec<Box<dyn Family>> {
-    vec![]
+    vec![Box::new(AliasChains), Box::new(ScopeProduct)]
 }
